@@ -25,8 +25,12 @@ specification yields exactly the observed responses).
   the `exec` steps as witness (the ghost log of the system IS a valid log).
 * `exec_between_inv_and_ret` — in that log every `exec` lies after the invocation and before the
   response of its operation, and the response carries what `exec` computed.
-* `reply_to_requester` — slot discipline: whatever a waiting client finds in its slot is the
-  response computed for ITS request (pooled slots are reused, never while referenced).
+* `reply_to_requester`, `pooled_slot_unreferenced` — slot discipline: whatever a waiting client
+  finds in its slot is the response computed for ITS request; a pooled slot is referenced by no
+  message in flight.  Executions include clients that ABANDON an in-flight request (`Step.abandon`:
+  the slot leaks, as in the code; the operation stays pending in the history).
+* `seeded_abandon_counterexample` — if abandoning returned the slot to the pool (`StepSeeded`, the
+  seeded RAII guard) a client receives the response of somebody else's request.
 * `linearizable_single_store` — instantiated with the sharding layer (`Shards.execN`) under
   consistent routing: linearizable w.r.t. ONE executor on ONE store (`per_key_single_shard`: all
   operations on a key go to one shard — C03's refinement).
@@ -105,14 +109,75 @@ theorem reply_to_requester {pool : Nat} {s : Sys σ Req Resp} (hr : Reach step r
   · rw [hs] at b2; cases b2
   · rw [hs] at b2; injection b2 with e; subst e; exact ⟨h4, b4, h3⟩
 
-/-- … and a slot in the pool is referenced by no message in flight -/
+/-- … and a slot in the pool is referenced by no message in flight — also not by the queued
+    message of a client that has ABANDONED its request (the code leaks that slot) -/
 theorem pooled_slot_unreferenced {pool : Nat} {s : Sys σ Req Resp} (hr : Reach step route s0 pool s)
     (i : Nat) (m : Msg Req) (hm : m ∈ s.mail i) : m.slot ∉ s.pool := by
   obtain ⟨r, hi⟩ := reach_inv step route s0 hr
-  obtain ⟨c, hc, _⟩ := hi.msg i m hm
-  exact (hi.cl c _ _ _ hc).2.2.1
+  exact (hi.msg i m hm).2.2.2.1
 
 end system
+
+/-! ## the discipline matters: abandoning with release (the seeded RAII guard) -/
+
+section seeded
+
+/-- an executor that answers every request with the request itself -/
+def echo (s : Unit) (req : Nat) : Unit × Nat := (s, req)
+
+def seededInit : Sys Unit Nat Nat := Sys.init () 1
+
+/-- one pooled slot, one shard.  Client 0 sends request 10 and gives up while it is queued — the
+    guard puts slot 0 back into the pool; client 1 sends request 20 and is handed the same slot;
+    the shard executes request 10 and writes its answer into slot 0 -/
+theorem seeded_reach : ∃ s, ReachSeeded echo (fun _ => 0) () 1 s ∧
+    s.client 1 = .waiting 1 20 0 ∧ s.slot 0 = some 10 ∧ s.log = [.inv 0 10, .inv 1 20, .lin 0 10] := by
+  have r0 : ReachSeeded echo (fun _ => 0) () 1 seededInit := ReachSeeded.init
+  have r1 := ReachSeeded.step r0 (.base (Step.invokePooled seededInit 0 10 0 [] rfl rfl))
+  have r2 := ReachSeeded.step r1 (.abandonRelease _ 0 0 10 0 rfl)
+  have r3 := ReachSeeded.step r2 (.base (Step.invokePooled _ 1 20 0 [] rfl rfl))
+  have r4 := ReachSeeded.step r3 (.base (Step.exec _ 0 ⟨0, 0, 10⟩ [⟨1, 0, 20⟩] rfl))
+  exact ⟨_, r4, rfl, rfl, rfl⟩
+
+/-- **with the seeded discipline `reply_to_requester` fails**: client 1, waiting for the answer to
+    request 20 (id 1), finds in its slot the answer 10 that was computed for request id 0 — the log
+    contains no `lin 1 10` — and its slot is referenced by a message in flight while pooled slots
+    are being handed out -/
+theorem seeded_abandon_counterexample :
+    ∃ (s : Sys Unit Nat Nat) (c id req sid resp : Nat),
+      ReachSeeded echo (fun _ => 0) () 1 s ∧ s.client c = .waiting id req sid ∧
+      s.slot sid = some resp ∧ (.lin id resp) ∉ s.log ∧ resp ≠ (echo () req).2 := by
+  obtain ⟨s, hr, h1, h2, h3⟩ := seeded_reach
+  refine ⟨s, 1, 1, 20, 0, 10, hr, h1, h2, ?_, by decide⟩
+  rw [h3]; decide
+
+/-- … and delivering it yields a history that is not linearizable: request 20 answered 10 -/
+theorem seeded_history_not_linearizable :
+    ¬ Linearizable echo () (seqHist [(1, 20, 10)] : List (Ev Nat Nat)) := by
+  intro h
+  have := seq_lin_legal echo () [(1, 20, 10)] h
+  exact absurd this.1 (by decide)
+
+/-- non-vacuity of the theorems for executions WITH an abandon (the code's discipline): client 0
+    gives up on request 10 while it is queued, its slot leaks; client 1 is handed a FRESH slot, the
+    shard answers both messages, client 1 gets its own answer; request 10 stays pending -/
+theorem abandon_reach : ∃ s, Reach echo (fun _ => 0) () 1 s ∧ s.pool = [] ∧
+    history s.log = [.inv 0 10, .inv 1 20, .res 1 20] := by
+  have r0 : Reach echo (fun _ => 0) () 1 seededInit := Reach.init
+  have r1 := Reach.step r0 (Step.invokePooled seededInit 0 10 0 [] rfl rfl)
+  have r2 := Reach.step r1 (Step.abandon _ 0 0 10 0 rfl)
+  have r3 := Reach.step r2 (Step.invokeFresh _ 1 20 rfl)
+  have r4 := Reach.step r3 (Step.exec _ 0 ⟨0, 0, 10⟩ [⟨1, 1, 20⟩] rfl)
+  have r5 := Reach.step r4 (Step.exec _ 0 ⟨1, 1, 20⟩ [] rfl)
+  have r6 := Reach.step r5 (Step.retDrop _ 1 1 20 1 20 rfl rfl)
+  exact ⟨_, r6, rfl, rfl⟩
+
+example : Linearizable echo () ([.inv 0 10, .inv 1 20, .res 1 20] : List (Ev Nat Nat)) := by
+  obtain ⟨s, hr, _, hh⟩ := abandon_reach
+  rw [← hh]
+  exact (linearizable echo (fun _ => 0) () hr).2
+
+end seeded
 
 /-! ## the sharding layer as the system's executor -/
 
